@@ -187,3 +187,47 @@ pub fn parse_cap(s: &str) -> Option<Option<usize>> {
         s.parse().ok().map(Some)
     }
 }
+
+/// Literals that appear in /repo's current source but not in the text the model was reviewed against
+/// (written by `check` from `srcmap.json`): candidate magic values.  Generators mix them into field
+/// contents, payloads, lengths and repetition counts.  Empty on the reviewed tree.
+pub struct Dict {
+    pub ints: Vec<usize>,
+    pub bytes: Vec<Vec<u8>>,
+}
+
+static DICT: std::sync::OnceLock<Dict> = std::sync::OnceLock::new();
+
+pub fn dict() -> &'static Dict {
+    DICT.get_or_init(|| Dict { ints: vec![], bytes: vec![] })
+}
+
+/// lines `int <n>` / `bytes <hex>`
+pub fn load_dict(path: &str) {
+    let mut d = Dict { ints: vec![], bytes: vec![] };
+    if let Ok(text) = std::fs::read_to_string(path) {
+        for l in text.lines() {
+            let mut it = l.split(' ');
+            match (it.next(), it.next()) {
+                (Some("int"), Some(n)) => {
+                    if let Ok(n) = n.parse::<usize>() {
+                        if n >= 2 && n <= 300_000 && !d.ints.contains(&n) {
+                            d.ints.push(n);
+                        }
+                    }
+                }
+                (Some("bytes"), Some(h)) => {
+                    if let Some(b) = unhex(h) {
+                        if !b.is_empty() && b.len() <= 64 && !d.bytes.contains(&b) {
+                            d.bytes.push(b);
+                        }
+                    }
+                }
+                _ => {}
+            }
+        }
+    }
+    d.ints.truncate(24);
+    d.bytes.truncate(48);
+    let _ = DICT.set(d);
+}
